@@ -71,7 +71,7 @@ func RunTwin(c *core.Ctx) {
 		}
 	}
 	// load
-	n0 := gen.Pick(r, []int{0, 4, 12, 30, 30, 80})
+	n0 := gen.Pick(r, []int{0, 4, 12, 30, 30, 80, 12, 30, 300, 650})
 	docs := d.newDocsClean("T0", n0)
 	for _, t := range twins {
 		if d.failed {
@@ -107,6 +107,25 @@ func RunTwin(c *core.Ctx) {
 							d.DropIndex(t.name, f)
 						}
 					}
+					// re-created later, after further writes (see below)
+				}
+			}
+			// a broad update while the dropped indexes do not exist
+			if n0 > 100 && !d.failed {
+				u := d.pickUpdFor(sch, []string{F, G, "x", "xy", "n.a"})
+				q := &model.Query{Coll: "T0"}
+				if _, ok := d.determinize(q); ok {
+					all(func(n string) {
+						qq := q.Clone()
+						qq.Coll = n
+						d.Bulk(BulkUpdateFunc, qq, u)
+					})
+				}
+			}
+		}
+		if i == mid+(nops-mid)/2 {
+			for _, t := range twins {
+				if t.when == 3 {
 					createIdx(t)
 				}
 			}
